@@ -111,12 +111,21 @@ Uppers07 == {
   Single("l", L(<<S("$replace")>>)), Single("l", L(<<Single("$delete", I("1"))>>)),
   Single("o", Single("x", I("2"))), Single("e", Null), L(<<I("1")>>) }
 
+(* Bound >= 2: chains of three layers (the middle one may satisfy, hide or re-introduce a marker) *)
+Mids07 == { Single("a", S("$required")), Single("l", L(<<S("$required")>>)), Single("o", Single("in", Single("x", I("2")))),
+            Single("a", Single("b", S("$required"))), Single("o", Single("$output", True)), Single("v", Null),
+            Single("e", Single("$value", L(<<S("ok")>>))) }
 CasesC07(lazy) ==
   UNION {{Case(<<lo, up>>, NoEnv, "chain") : lo \in {x \in Lowers07(t) : ~(IsMap(x) /\ Has(x, "$match"))}, up \in Uppers07}
+         \cup (IF Bound >= 2
+               THEN {Case(<<lo, mid, up>>, NoEnv, "chain") : lo \in {x \in Lowers07(t) : IsMap(x) /\ ~Has(x, "$match")}, mid \in Mids07, up \in Uppers07}
+               ELSE {})
          : t \in Toks07}
 
+(* layering of a whole chain *)
+LayerAll(ds) == FoldRes(LAMBDA acc, d : Merge(acc, d), ds[1], Tail(ds))
 LawC07(cs) ==
-  LET m == Merge(cs.docs[1], cs.docs[2]) IN
+  LET m == LayerAll(cs.docs) IN
   m.ok => LET r == Eval1(m.v) IN
           r.ok => \A i \in DOMAIN r.v : NoMarker(r.v[i])
 
@@ -192,15 +201,24 @@ CrossBad10 == { Single("$replace", Mk2("$match", Single("id", I("7")), "$path", 
 (* disturb mid or base, whatever the key order                              *)
 Chain10(hk, mk, bk, local, midv, basev) ==
   M(hk :> Mk2("$merge", S(mk), "opts", local) @@ mk :> Mk2("$merge", S(bk), "opts", midv) @@ bk :> Single("opts", basev))
-ChainVals == {I("5"), Null, Single("flags", L(<<S("h")>>)), L(<<S("lh")>>), Single("other", I("1"))}
+ChainVals == {I("5"), Null, Single("flags", L(<<S("h")>>)), L(<<S("lh")>>), Single("other", I("1")), EmptyMap, EmptyList}
 ChainConts == {Single("flags", L(<<S("m")>>)), L(<<S("lm")>>), Mk2("flags", L(<<S("m")>>), "deep", Single("k", I("1")))}
 ChainNames == { <<"host", "mid", "base">>, <<"zhost", "mid", "base">>, <<"host", "mid", "zbase">>, <<"b", "c", "a">> }
 CasesChain10(lazy) ==
   {CaseX(<<Chain10(n[1], n[2], n[3], lv, mv, bv)>>, NoEnv, "mergechain", n)
      : n \in ChainNames, lv \in ChainVals, mv \in ChainConts, bv \in ChainConts}
 
+(* Bound >= 2: the host under another key (evaluated AFTER every target: "zz"; before: "a0") and one map deeper *)
+DocC10k(host, key) == Del(DocC10(host), "h") %% Single(key, host)
+Places10 == {"zz", "a0", "in.deep"}
+Place(host, pl) == IF pl = "in.deep" THEN DocC10k(Single("deep", host), "in") ELSE DocC10k(host, pl)
+CasesPlace10(lazy) ==
+  IF Bound < 2 THEN {}
+  ELSE {CaseX(<<Place(p[1], pl)>>, NoEnv, "placed", <<Place(p[2], pl)>>) : p \in Pairs10, pl \in Places10}
+       \cup {Case(<<Place(b, pl)>>, NoEnv, "bad") : b \in Bad10, pl \in Places10}
+
 CasesC10(lazy) ==
-  CasesChain10(0) \cup
+  CasesChain10(0) \cup CasesPlace10(0) \cup
   {Case(<<DocC10(p[1])>>, NoEnv, "ref") : p \in Pairs10}
   \cup {Case(<<DocC10(p[2])>>, NoEnv, "inline") : p \in Pairs10}
   \cup {Case(<<DocC10(Mk2("a", p[1], "b", S("$replace:h.a")))>>, NoEnv, "chain") : p \in ChainPairs10}
@@ -219,6 +237,8 @@ LawC10(cs) ==
             LET a == Eval1(DocC10(p[1]))  b == Eval1(DocC10(p[2])) IN
             /\ a.ok /\ b.ok /\ a.v = b.v
             /\ At(a.v[1], "t") = Tgt /\ At(a.v[1], "l") = L(<<I("1"), I("2")>>)   \* targets unchanged
+    [] cs.tag = "placed" ->
+         LET a == Eval1(cs.docs[1])  b == Eval1(cs.aux[1]) IN a.ok /\ b.ok /\ a.v = b.v
     [] cs.tag = "chain" ->
          \E p \in ChainPairs10 : cs.docs[1] = DocC10(Mk2("a", p[1], "b", S("$replace:h.a"))) /\
             LET a == Eval1(cs.docs[1]) IN
@@ -254,7 +274,16 @@ Shape11(r, a, b, cl) ==
   WithMark(Mk3("v", I("1"),
                "A", WithMark(Mk2("w", I("2"), "B", WithMark(Single("x", I("3")), b)), a),
                "C", ListMark(<<I("4"), Single("y", I("5"))>>, cl)), r)
+(* Bound >= 2: six containers - also a map below a key of a list entry (D) and a list nested in the list (E) *)
+Shape11b(r, a, b, cl, dm, el) ==
+  WithMark(Mk3("v", I("1"),
+               "A", WithMark(Mk2("w", I("2"), "B", WithMark(Single("x", I("3")), b)), a),
+               "C", ListMark(<<I("4"), Single("y", WithMark(Single("q", I("5")), dm)), ListMark(<<I("6")>>, el)>>, cl)), r)
+CasesC11b(lazy) ==
+  IF Bound < 2 THEN {}
+  ELSE {Case(<<Shape11b(r, a, b, cl, dm, el)>>, NoEnv, "marks") : r \in MarkSet, a \in MarkSet, b \in MarkSet, cl \in MarkSet, dm \in MarkSet, el \in MarkSet}
 CasesC11(lazy) ==
+  CasesC11b(0) \cup
   {Case(<<Shape11(r, a, b, cl)>>, NoEnv, "marks") : r \in MarkSet, a \in MarkSet, b \in MarkSet, cl \in MarkSet}
   \cup {Case(<<Shape11(r, a, "n", "n"), Shape11("n", "n", b, cl)>>, NoEnv, "stream") : r \in MarkSet, a \in MarkSet, b \in MarkSet, cl \in MarkSet}
   \cup {Case(<<L(<<Single("$output", True), Single("w", Mk2("$output", True, "p", I("1"))), L(<<Single("$output", mk), I("2")>>)>>)>>, NoEnv, "lists") : mk \in {True, False}}
@@ -296,6 +325,12 @@ CasesC12(lazy) ==
   \cup {Case(<<Body12 %% Single("$repeat", I("1")), Single("$repeat", I(NatStr(n)))>>, NoEnv, "override") : n \in Counts}
   \cup {Case(<<Nest12(n, m)>>, NoEnv, "nested") : n \in 0..2, m \in 0..2}
   \cup {Case(<<Single("l", L(<<Mk3("$repeat", I(NatStr(n)), "in", L(<<Mk2("$repeat", I("2"), "j", S("$repeat"))>>), "out", S("$repeat"))>>))>>, NoEnv, "nestedlist") : n \in 0..2}
+  (* negative counts are zero iterations in every form *)
+  \cup {Case(<<Body12 %% Single("$repeat", I(nc))>>, NoEnv, "negcount") : nc \in {"-1", "-3"}}
+  \cup {Case(<<BodyXY %% Single("$repeat", Mk2("x", I(c1), "y", I(c2)))>>, NoEnv, "negcount")
+           : c1 \in {"-1", "0", "2"}, c2 \in {"-2", "0", "1"}}
+  \cup {CaseX(<<Single("l", L(<<S("a"), Body12 %% Single("$repeat", I(nc)), S("z")>>))>>, NoEnv, "neglist", Single("l", L(<<S("a"), S("z")>>))) : nc \in {"-1", "-2"}}
+  \cup {Case(<<L(<<Single("$repeat", I("-1")), S("$repeat")>>)>>, NoEnv, "negcount") : dummy \in {1}}
   \cup {Case(<<Body12 %% Single("$repeat", v)>>, NoEnv, "badcount") : v \in {S("2"), F("1.5"), True, L(<<I("1")>>), Mk2("x", I("1"), "y", S("2"))}}
   \cup {Case(<<Single("l", L(<<Body12 %% Single("$repeat", v)>>))>>, NoEnv, "badnested") : v \in {S("2"), F("1.5"), Single("x", I("1"))}}
 
@@ -341,6 +376,11 @@ LawC12(cs) ==
          LET k == CountOf(At(Elems(At(d, "l"))[1], "$repeat")) IN
          Eval1(d) = Ok(<<Single("l", L([i \in 1..k |->
                            Mk2("in", L(<<Single("j", I("0")), Single("j", I("1"))>>), "out", I(NatStr(i - 1)))]))>>)
+    [] cs.tag = "negcount" -> (\E k \in {"x", "y"} : IsMap(d) /\ IsMap(At(d, "$repeat")) /\ ~HasPrefix(Pay(At(At(d, "$repeat"), "x")), "-")
+                                                      /\ ~HasPrefix(Pay(At(At(d, "$repeat"), "y")), "-")
+                                                      /\ CountOf(At(At(d, "$repeat"), "x")) * CountOf(At(At(d, "$repeat"), "y")) > 0)
+                              \/ Eval1(d) = Ok(<<>>)
+    [] cs.tag = "neglist" -> Eval1(d) = Ok(<<cs.aux>>)
     [] cs.tag \in {"badcount", "badnested"} -> ~Eval1(d).ok
     [] OTHER -> TRUE
 
@@ -359,6 +399,10 @@ CasesC13(lazy) ==
   {CaseX(<<Doc13("$\"" \o l1 \o "\"")>>, Env13, "lit", l1) : l1 \in Lits}
   \cup {CaseX(<<Doc13(Tmpl1(l1, r, l2))>>, Env13, "one", <<l1, r, l2>>) : l1 \in Lits, r \in Refs13, l2 \in Lits}
   \cup {CaseX(<<Doc13(Tmpl2(l1, r1, ":", r2, l1))>>, Env13, "two", <<l1, r1, r2>>) : l1 \in {"", "a}"}, r1 \in Refs13, r2 \in Refs13}
+  \cup (IF Bound >= 2
+        THEN {CaseX(<<Doc13(Tmpl2(l1, r1, l2, r2, l3))>>, Env13, "two3", <<l1, r1, l2, r2, l3>>)
+                : l1 \in {"", "\"", "a}"}, r1 \in Refs13, l2 \in Lits, r2 \in Refs13, l3 \in {"", "\"", ":"}}
+        ELSE {})
   \cup {Case(<<Mk2("t", S("$env:" \o v), "$env:V", I("1"))>>, Env13, "env") : v \in {"V", "E", "N", "UNSET"}}
   \cup {Case(<<Mk3("a", S("$\"{b}\""), "b", S("$\"<{n}>\""), "n", I("5"))>>, Env13, "nested") : x \in {1}}
 
@@ -372,6 +416,11 @@ LawC13(cs) ==
          LET l1 == cs.aux[1]  r1 == cs.aux[2]  r2 == cs.aux[3] IN
          IF Known13(r1) /\ Known13(r2)
          THEN r.ok /\ At(r.v[1], "t") = S(l1 \o Value13(r1) \o ":" \o Value13(r2) \o l1)
+         ELSE ~r.ok
+    [] cs.tag = "two3" ->
+         LET l1 == cs.aux[1]  r1 == cs.aux[2]  l2 == cs.aux[3]  r2 == cs.aux[4]  l3 == cs.aux[5] IN
+         IF Known13(r1) /\ Known13(r2)
+         THEN r.ok /\ At(r.v[1], "t") = S(l1 \o Value13(r1) \o l2 \o Value13(r2) \o l3)
          ELSE ~r.ok
     [] cs.tag = "env" ->
          IF At(cs.docs[1], "t") = S("$env:UNSET") THEN ~r.ok
@@ -474,7 +523,7 @@ Law(cs) == CASE Family = "C14" -> LawC14(cs) [] Family = "C08" -> LawC08(cs) [] 
 IsChain(cs) == cs.tag \in {"layered", "chain07", "override", "rootlistlayer"} \/ (Family = "C07")
 Result(cs) ==
   IF IsChain(cs) THEN
-     LET m == Merge(cs.docs[1], cs.docs[2]) IN
+     LET m == LayerAll(cs.docs) IN
      IF ~m.ok THEN [ok |-> FALSE, err |-> m.err, stage |-> "merge"]
      ELSE LET r == Eval1(m.v) IN
           IF r.ok THEN [ok |-> TRUE, v |-> r.v, stage |-> "eval"] ELSE [ok |-> FALSE, err |-> r.err, stage |-> "eval"]
